@@ -57,6 +57,10 @@ CLAIMED = {
          "All taxonomies up to 6 nodes are enumerated by TLC, which checks on the model that LCA is the deepest common ancestor (commutative, associative, idempotent), that paths, clades, taxon-at-rank and alias resolution agree with the tree, and that the code-shaped walks equal the reference definitions. Every expected answer is replayed on the real obitax through both loaders and on the obigrep -t -r/-i/--require-rank and obiannotate --with-taxon-at-rank/--add-lca-in binaries. Random trees of thousands of nodes are judged event by event by a TLC trace specification.",
          "Trusted: TLC, the harness's encoding and decoding (NCBI dump layout, FASTA/JSON headers, -1/NA read as no taxon). Bounded: exhaustive up to 6 nodes, 3 node ranks + 1 absent, merged ids on one node parity; random up to 5 000 nodes; sequence LCA at zero tolerance only; a binary run is repeated up to twice on a non-reproducible crash.",
          "DESIGN.md 5 C14"),
+ "C16": ("TLC enumerates command lines (each option, every pair, repeatable options with all occurrences, seeded larger subsets, x -v, x six paired modes) over a curated boundary data set, checks the laws of Grep/Annotate/Route.tla and exports the required content of every output file; each case is run on the real binaries under a (--max-cpu, --batch-size, format, --save-discarded) grid and at library level, one child process per command line; OptTrace.tla re-evaluates the specification on random command lines x random records from the library entry points and the binaries",
+         "Bounded model checking of the option semantics (conjunction of criteria, -v as complement, six paired modes, kept/discarded partition, every occurrence of repeatable edits, frame condition, exactly one output file per record, mates at the same rank), with replay of every model case on the real binaries and library entry points, and TLC validation of random traces. Quick: 2.9 k command lines, 6.4 k implementation executions; thorough: 18 k command lines, 99 k executions.",
+         "Regex and expression semantics are tabulated atoms. Taxonomy options (C14), approximate patterns, -l 1 and -c 1 (default values), and --cut negative-from arithmetic are outside the decided clauses. The discarded / unidentified side-file exit races are covered by repeated runs of a 2 %/run class. A crashed process is re-run and counted, not alarmed, when the crash does not repeat.",
+         "DESIGN.md 5 C16"),
 }
 
 NOT_YET = "check not built yet in this round (planned, see DESIGN.md 10); not claimed"
